@@ -582,7 +582,20 @@ func hasOracle(o tfObs, atom string, truth bool) bool {
 	return false
 }
 
-func (c *Ctx) tfStrings() []string { return shortStrings(".#a1", c.depth(5, 6)) }
+// tfStrings: the path strings a tree-form method is folded over: all strings up to length 5 over the two sigils, a letter and a digit —
+// and over the characters the method's own code (with the helpers it inlines) compares a segment with or searches the path for (a
+// wildcard, a quote, a sign), one position shorter, so that a special case keyed on another character cannot hide behind paths that
+// never contain it.
+func (c *Ctx) tfStrings(fd *ast.FuncDecl) []string {
+	alphabet, depth := ".#a1", c.depth(5, 6)
+	if fd != nil {
+		if extra := c.constCharsOf(fd, alphabet+"'%", 2); extra != "" {
+			alphabet += extra
+			depth = c.depth(4, 5)
+		}
+	}
+	return shortStrings(alphabet, depth)
+}
 
 // ---------------------------------------------------------------- C10
 
@@ -649,7 +662,7 @@ func c10Method(c *Ctx, m *tfM, isType bool) {
 		}
 	}
 	undec := ""
-	for _, s := range c.tfStrings() {
+	for _, s := range c.tfStrings(m.fd) {
 		obs, why := m.observe(s, 2)
 		if why != "" {
 			undec = "path " + strconv.Quote(s) + ": " + why
@@ -862,7 +875,7 @@ func c11Method(c *Ctx, m *tfM, isSet bool) {
 		lens = []int64{0, 1, 2, 3}
 	}
 outer:
-	for _, s := range c.tfStrings() {
+	for _, s := range c.tfStrings(m.fd) {
 		sp := m.spec(s)
 		if !sp.wrongHd && !sp.valid {
 			continue // empty first segment: outside C11's well-formed paths
